@@ -704,12 +704,21 @@ class Engine:
             parts.append((0, b.n, src[0], src[2]))
         return parts
 
+    @staticmethod
+    def _copy_with_provenance(b):
+        """b'' + x (the first step of b''.join / of an accumulator loop) is x: the to_bytes provenance of x must survive it"""
+        r = SBytes(b.arr, b.n, b.off, False)
+        for attr in ('_int_src', '_int_parts'):
+            if getattr(b, attr, None) is not None:
+                setattr(r, attr, getattr(b, attr))
+        return r
+
     def bytes_concat(self, a, b):
         a, b = self.as_sbytes(a), self.as_sbytes(b)
         if a.concrete_len() and a.n == 0:
-            return SBytes(b.arr, b.n, b.off, False)
+            return self._copy_with_provenance(b)
         if b.concrete_len() and b.n == 0:
-            return SBytes(a.arr, a.n, a.off, False)
+            return self._copy_with_provenance(a)
         if a.concrete_len() and b.concrete_len():
             r = SBytes.from_elems([a.at(i) for i in range(a.n)] + [b.at(i) for i in range(b.n)])
             parts = self._int_parts(a) + [(st + a.n, k, src, order) for (st, k, src, order) in self._int_parts(b)]
@@ -1358,12 +1367,31 @@ class Engine:
                         r = r * x
                     return Sym(r)
             raise Unsupported(f'binop {type(op).__name__} on symbolic ints')
+        if isinstance(op, ast.Add) and self._is_text(a) and self._is_text(b) and not (isinstance(a, str) and isinstance(b, str)):
+            # text + text where an operand is a string-like ghost WITHOUT an operator model of its own: a + b is the text f'{a}{b}';
+            # the structure is kept exactly as for an f-string (ghost classes that define __pyvc_binop__ decide for themselves above)
+            return FStr([a, b])
         if has_sym(a) and not isinstance(a, (list, tuple, dict)) or has_sym(b) and not isinstance(b, (list, tuple, dict)):
             raise Unsupported(f'operator {type(op).__name__} on {type(a).__name__} and {type(b).__name__} (ghost/symbolic operand not modelled)')
         try:
             return self._optable[type(op)](a, b)
         except (TypeError, ValueError, ZeroDivisionError, OverflowError) as e:
             raise RaiseEx(e)
+
+    @staticmethod
+    def _is_text(v):
+        """a Python str, or a string-like ghost that is a `str` (not bytes) in its own model and has no operator model of its own"""
+        if isinstance(v, str):
+            return not isinstance(v, Opaque)
+        if not getattr(v, '__pyvc_strlike__', False) or hasattr(v, '__pyvc_binop__'):
+            return False
+        hook = getattr(v, '__pyvc_isinstance__', None)
+        if hook is None:
+            return False
+        try:
+            return bool(hook((str,))) and not bool(hook((bytes,)))
+        except Unsupported:
+            return False
 
     def bitand(self, a, b):
         """x & c for a constant c >= 0: sum of the selected bits (exact for all integers x)"""
